@@ -391,7 +391,7 @@ var concNilFonts = []string{"cffnoenc", "cffemptyenc", "cffnil", "cffnocmap", "s
 // others, .notdef included), so most subsets contain no hinted glyph.  "cidread" is a CID-keyed
 // CFF font with three FD ranges that went through Write and sfnt.Read, so that its FDSelect is
 // the closure built by the reader (format 3).
-var concFinalFonts = []string{"sttfunhint", "cidread", "cidfd7"}
+var concFinalFonts = []string{"sttfunhint", "cidread", "cidfd7", "cffreq", "cffopt"}
 
 // concStripHints removes the TrueType instructions from simple glyphs (all but `keep`).
 func concStripHints(o *glyf.Outlines, keep map[glyph.ID]bool) {
@@ -857,6 +857,42 @@ func concFontRaw(id string) *sfnt.Font {
 			FeatureList: []*gtab.Feature{{Tag: "test", Lookups: []gtab.LookupIndex{0, 1, 2, 3}}},
 			LookupList:  ll,
 		}
+	case id == "cffreq", id == "cffopt":
+		// "smcp" (not among the default features) is the REQUIRED feature of cffreq's script record
+		// and an optional, non-default feature of cffopt; both also have an optional "liga"
+		f = debug.MakeSimpleFont()
+		f.CreationTime, f.ModificationTime = concFixedTime, concFixedTime
+		gs, err := builder.Parse(f, `
+			GSUB1: A->B, C->D, E->F
+			GSUB4: F I -> K, F L -> L
+		`)
+		if err != nil {
+			panic(err)
+		}
+		gp, err := builder.Parse(f, `
+			GPOS1: [A-F] -> y+25
+			GPOS2: A V -> dx-100, T E -> dx-50
+		`)
+		if err != nil {
+			panic(err)
+		}
+		feats := &gtab.Features{Required: 0, Optional: []gtab.FeatureIndex{1}}
+		pfeats := &gtab.Features{Required: 0, Optional: []gtab.FeatureIndex{1}}
+		if id == "cffopt" {
+			feats = &gtab.Features{Required: 0xFFFF, Optional: []gtab.FeatureIndex{0, 1}}
+			pfeats = &gtab.Features{Required: 0xFFFF, Optional: []gtab.FeatureIndex{0, 1}}
+		}
+		und := language.MustParse("und-Zzzz")
+		f.Gsub = &gtab.Info{
+			ScriptList:  map[language.Tag]*gtab.Features{und: feats},
+			FeatureList: []*gtab.Feature{{Tag: "smcp", Lookups: []gtab.LookupIndex{0}}, {Tag: "liga", Lookups: []gtab.LookupIndex{1}}},
+			LookupList:  gs,
+		}
+		f.Gpos = &gtab.Info{
+			ScriptList:  map[language.Tag]*gtab.Features{und: pfeats},
+			FeatureList: []*gtab.Feature{{Tag: "sups", Lookups: []gtab.LookupIndex{0}}, {Tag: "kern", Lookups: []gtab.LookupIndex{1}}},
+			LookupList:  gp,
+		}
 	case id == "cidread":
 		f = debug.MakeSimpleFont()
 		f.CreationTime, f.ModificationTime = concFixedTime, concFixedTime
@@ -918,6 +954,61 @@ func concGlobalsHash() uint64 {
 	h = mix(h, hashBytes(goitalic.TTF))
 	h = mix(h, hashBytes(gomono.TTF))
 	return h
+}
+
+// The package-level default feature maps as they are when the process starts.  A case that finds
+// them changed reports it AND puts them back, so that the cases after it (and the goroutines of
+// its own parallel phase: concurrent writes to a Go map are a fatal error that recover cannot
+// catch) start from pristine package state again.
+var concPristineGsub, concPristineGpos = concCopyMap(gtab.GsubDefaultFeatures), concCopyMap(gtab.GposDefaultFeatures)
+
+func concCopyMap(m map[string]bool) map[string]bool {
+	c := make(map[string]bool, len(m))
+	for k, v := range m {
+		c[k] = v
+	}
+	return c
+}
+
+func concSameMap(a, b map[string]bool) bool {
+	if len(a) != len(b) {
+		return false
+	}
+	for k, v := range a {
+		if w, ok := b[k]; !ok || w != v {
+			return false
+		}
+	}
+	return true
+}
+
+// concRestoreGlobals reports which default feature map differs from its pristine content (with the
+// differing tags) and restores both.
+func concRestoreGlobals() string {
+	var what []string
+	for _, x := range []struct {
+		name     string
+		cur, old map[string]bool
+	}{{"GsubDefaultFeatures", gtab.GsubDefaultFeatures, concPristineGsub}, {"GposDefaultFeatures", gtab.GposDefaultFeatures, concPristineGpos}} {
+		if concSameMap(x.cur, x.old) {
+			continue
+		}
+		var tags []string
+		for k, v := range x.cur {
+			if w, ok := x.old[k]; !ok || w != v {
+				tags = append(tags, k)
+			}
+		}
+		sort.Strings(tags)
+		what = append(what, "gtab."+x.name+"["+strings.Join(tags, ",")+"]")
+		for k := range x.cur {
+			delete(x.cur, k)
+		}
+		for k, v := range x.old {
+			x.cur[k] = v
+		}
+	}
+	return strings.Join(what, ",")
 }
 
 // ---- operations ---------------------------------------------------------------------------------
@@ -1249,6 +1340,16 @@ var concOps = []concOp{
 			b.WriteByte('|')
 			prev = t
 		}
+		// a layouter with CALLER-SUPPLIED feature maps: the maps belong to the caller
+		myGsub := map[string]bool{"liga": true, "smcp": false, "calt": true}
+		myGpos := map[string]bool{"kern": true, "mark": false}
+		cG, cP := concCopyMap(myGsub), concCopyMap(myGpos)
+		if l3, err := f.NewLayouter(lang, myGsub, myGpos); err == nil {
+			b.WriteString(concShowSeq(l3.Layout("AAB FI AVA abc")))
+		}
+		if !concSameMap(myGsub, cG) || !concSameMap(myGpos, cP) {
+			return fmt.Sprintf("notalone:caller-feature-map-written,gsub=%v,gpos=%v", myGsub, myGpos)
+		}
 		return concShort(b.String())
 	}},
 	{"gtabapply", "gtab", func(f *sfnt.Font, r *concRng) string {
@@ -1362,6 +1463,9 @@ func (a concState) diff(b concState) string {
 		return ""
 	}
 	if a.globals != b.globals {
+		if w := concRestoreGlobals(); w != "" {
+			return "changed:package-level-state=" + concTrunc(w)
+		}
 		return "changed:package-level-tables"
 	}
 	return "changed:" + strings.ReplaceAll(diffParts(deepHashParts(concFont(a.id)), deepHashParts(b.f)), " ", ",")
@@ -1371,6 +1475,7 @@ func (a concState) diff(b concState) string {
 var concNotes []string
 
 func concPure(fd Fields) string {
+	concRestoreGlobals() // safety net: never start from package state an earlier case left changed
 	f := concFont(fd["font"])
 	var arg uint64
 	fmt.Sscan(fd["arg"], &arg)
@@ -1411,6 +1516,7 @@ func concPure(fd Fields) string {
 
 // concParallel runs the case; it is also what the race-detector build executes.
 func concParallel(fd Fields) string {
+	concRestoreGlobals()
 	f := concFont(fd["font"])
 	n := fd.Int("threads")
 	names := fd.List("ops", ",")
@@ -1605,6 +1711,29 @@ func concHdrWrite(fd Fields) string {
 		}
 	}
 	return "unchanged"
+}
+
+// concCrossFont: `conc.crossfont first=<id> second=<id> arg=<n>` — using one font must not change
+// what another font does: the layout of `second` (default features) is taken before and after
+// laying out `first`, which goes through package-level state only.
+func concCrossFont(fd Fields) string {
+	concRestoreGlobals()
+	var arg uint64
+	fmt.Sscan(fd["arg"], &arg)
+	second := concFont(fd["second"])
+	before := concRun("layout", second, arg)
+	first := concFont(fd["first"])
+	_ = concRun("layout", first, arg+1)
+	_ = concRun("findlookups", first, arg+2)
+	after := concRun("layout", second, arg)
+	w := concRestoreGlobals()
+	if before != after {
+		return "differs:layout-of-" + fd["second"] + "-after-using-" + fd["first"] + ",state=" + concTrunc(w)
+	}
+	if w != "" {
+		return "changed:package-level-state=" + concTrunc(w)
+	}
+	return "equal"
 }
 
 // concSelfTest: `conc.selftest font=<id>` — completeness of the snapshot on this font: a planted
@@ -1914,6 +2043,15 @@ func areaConc(c *Ctx) {
 	pure("write", "cffbig") // lookup list > 64 kB: extension records
 	pure("clone", "cffbig")
 	i += 4
+	for _, id := range []string{"cffreq", "cffopt"} {
+		for _, op := range []string{"layout", "findlookups", "write", "explaingsub"} {
+			pure(op, id)
+			i++
+		}
+	}
+	for _, pr := range [][2]string{{"cffreq", "cffopt"}, {"cffopt", "cffreq"}, {"cffall", "cffopt"}, {"cffgtab", "cffopt"}, {"cffreq", "sttfall"}} {
+		c.Stat("crossfont.result", strings.SplitN(c.Case(Direct, "conc.crossfont", fmt.Sprintf("first=%s second=%s arg=%d", pr[0], pr[1], c.Rng.U64()>>1), true), ":", 2)[0])
+	}
 	// completeness of the snapshot itself (a planted write in every slice/map must change the hash)
 	self := []string{"cffalln", "cffall5", "cffsub", "cid"}
 	if thorough {
@@ -2071,6 +2209,7 @@ func init() {
 	ops["conc.parallel"] = concParallel
 	ops["conc.hdrwrite"] = concHdrWrite
 	ops["conc.selftest"] = concSelfTest
+	ops["conc.crossfont"] = concCrossFont
 	ops["conc.race"] = concRace
 	ops["conc.raceinfo"] = func(f Fields) string { return "info" }
 	// positive controls: only the class of the outcome is reported
